@@ -10,7 +10,7 @@ import (
 	"testing/synctest"
 	"time"
 
-	"github.com/vx-labs/mqtt-protocol/decoder"
+	"encoding/binary"
 	"github.com/vx-labs/mqtt-protocol/encoder"
 	"github.com/vx-labs/mqtt-protocol/packet"
 )
@@ -87,9 +87,8 @@ func (w *World) NewClient(name string, node int, policy AckPolicy) *Client {
 }
 
 func (c *Client) readLoop() {
-	dec := decoder.New()
 	for {
-		p, err := dec.Decode(c.conn)
+		p, err := readPacket(c.conn)
 		if err != nil {
 			c.mu.Lock()
 			c.Closed = true
@@ -274,4 +273,68 @@ func (c *Client) Count(prefix string) int {
 		}
 	}
 	return n
+}
+
+
+// readPacket is the harness-side decoder: the codec library's decoder has no UNSUBACK case, so the
+// client reads the fixed header itself and unmarshals the body per type.
+func readPacket(r io.Reader) (packet.Packet, error) {
+	var b [1]byte
+	if _, err := io.ReadFull(r, b[:]); err != nil {
+		return nil, err
+	}
+	first := b[0]
+	remlen, mult := 0, 1
+	for i := 0; ; i++ {
+		if _, err := io.ReadFull(r, b[:]); err != nil {
+			return nil, err
+		}
+		remlen += int(b[0]&0x7f) * mult
+		mult *= 128
+		if b[0]&0x80 == 0 {
+			break
+		}
+		if i >= 3 {
+			return nil, errors.New("harness: malformed remaining length from broker")
+		}
+	}
+	body := make([]byte, remlen)
+	if _, err := io.ReadFull(r, body); err != nil {
+		return nil, err
+	}
+	h := &packet.Header{Retain: first&1 == 1, Qos: int32(first >> 1 & 3), Dup: first>>3&1 == 1}
+	var p interface {
+		packet.Packet
+		UnmarshalMQTT([]byte) (int, error)
+	}
+	switch first >> 4 {
+	case packet.CONNACK:
+		p = &packet.ConnAck{Header: h}
+	case packet.PUBLISH:
+		p = &packet.Publish{Header: h}
+	case packet.PUBACK:
+		p = &packet.PubAck{Header: h}
+	case packet.PUBREC:
+		p = &packet.PubRec{Header: h}
+	case packet.PUBREL:
+		p = &packet.PubRel{Header: h}
+	case packet.PUBCOMP:
+		p = &packet.PubComp{Header: h}
+	case packet.SUBACK:
+		p = &packet.SubAck{Header: h}
+	case packet.PINGRESP:
+		p = &packet.PingResp{Header: h}
+	case packet.UNSUBACK:
+		u := &packet.UnsubAck{Header: h}
+		if len(body) >= 2 {
+			u.MessageId = int32(binary.BigEndian.Uint16(body))
+		}
+		return u, nil
+	default:
+		return nil, fmt.Errorf("harness: unexpected packet type %d from broker", first>>4)
+	}
+	if _, err := p.UnmarshalMQTT(body); err != nil {
+		return nil, err
+	}
+	return p, nil
 }
